@@ -1260,6 +1260,10 @@ class TensordotOp:
             return None
         if x.dtype.kind == "b" and y.dtype.kind == "b":
             return None
+        if any(d.kind in "iu" and d.itemsize < 8 for d in (x.dtype, y.dtype)):
+            # contractions of narrow integers wrap inside a block and are summed wide across blocks: the
+            # value then depends on the chunking of the contracted axis (a pure C01 matter, DESIGN 6.3)
+            return None
         pairs = [(i, j) for i in range(x.ndim) for j in range(y.ndim) if x.shape[i] == y.shape[j] and x.shape[i] > 0]
         if not pairs:
             return None
